@@ -381,6 +381,12 @@ func c16Config(c *core.Ctx, k c16Case) {
 	}
 	m := c.Model.Ask("pat-eff %d %s %s", hostSeed, strings.Join(raws, ","), c16Tokens(in))
 	c.Compared()
+	// the same with rng.FixedInt modelled exactly (SHA-256 in the model, no raw values handed over)
+	msha := c.Model.Ask("pat-eff-sha %d %s", hostSeed, c16Tokens(in))
+	c.Compared()
+	if msha != m {
+		c.Disagree("C16/corr/effective-sha", fmt.Sprintf("model with the SHA-256 FixedInt %q, model with the raw values read from rng.FixedInt %q", msha, m), k)
+	}
 	if err != nil {
 		c.Hist("branch", "rejected:"+strings.SplitN(c16ErrEnum(err), ":", 2)[0])
 		if got := "err " + c16ErrEnum(err); m != got {
@@ -639,8 +645,23 @@ func c16NonceCase(c *core.Ctx, k c16Case) {
 		return
 	}
 	flags := fl[3:]
-	if lo != lo0 || hi != hi0 {
-		c.Disagree("C16/corr/nonce-range", fmt.Sprintf("model range %d..%d for a valid pattern %d..%d", lo, hi, lo0, hi0), k)
+	// the model's range against the REAL nonceRewriteLen (hook): 600 draws span exactly lo..hi
+	if lens, _, err := cipher.VerifNonceRewriteLens(np, 600); err == nil {
+		rlo, rhi := 1<<30, -1
+		for _, l := range lens {
+			if l < rlo {
+				rlo = l
+			}
+			if l > rhi {
+				rhi = l
+			}
+		}
+		if lo != rlo || hi != rhi {
+			c.Disagree("C16/corr/nonce-range", fmt.Sprintf("model range %d..%d, real nonceRewriteLen over 600 draws %d..%d (pattern %d..%d)", lo, hi, rlo, rhi, lo0, hi0), k)
+		}
+		if rlo < lo0 || rhi > hi0 {
+			c.Violate("C16/nonce/rewrite-len-outside-range", fmt.Sprintf("real rewrite lengths %d..%d outside the configured %d..%d", rlo, rhi, lo0, hi0), k)
+		}
 	}
 	var prefixes [][]byte
 	for _, h := range k.Pat.Nonce.Hex {
@@ -796,6 +817,17 @@ func c16MaxPad(c *core.Ctx, k c16Case) {
 	if m != fmt.Sprintf("ok %d", got) {
 		c.Disagree("C16/corr/maxpad", fmt.Sprintf("model %q impl %d (base %d configured %s)", m, got, base, c16oi(cfg)), k)
 	}
+	if c.Gen != nil {
+		var mid, end *int32
+		if tp != nil && tp.Padding != nil {
+			mid, end = tp.Padding.MaxMiddlePaddingLen, tp.Padding.MaxEndPaddingLen
+		}
+		g := c.Gen.Ask("pg-maxPaddingTP %d %d %d %d %s %s %s %s %d", k.MTU, k.Transport, k.Frag, k.Existing, c16b01(tp == nil), c16b01(tp == nil || tp.Padding == nil), c16oi(mid), c16oi(end), k.Position)
+		c.Compared()
+		if g != fmt.Sprintf("ok %d", got) {
+			c.Disagree("C16/corr/gen-maxPaddingSizeWithTrafficPattern", fmt.Sprintf("regenerated %q impl %d", g, got), k)
+		}
+	}
 	if cfg != nil && *cfg >= 0 && got > int(*cfg) {
 		c.Violate("C16/padding-above-configured", fmt.Sprintf("padding budget %d above the configured maximum %d", got, *cfg), k)
 	}
@@ -827,6 +859,24 @@ func c16LESend(c *core.Ctx, k c16Case) {
 	c.Compared()
 	if got := fmt.Sprintf("ok %d %d %s", gm, gr, c16b01(on)); m != got {
 		c.Disagree("C16/corr/le-send", fmt.Sprintf("model %q impl %q", m, got), k)
+	}
+	if c.Gen != nil {
+		var mode0, rot0 int32
+		if tp != nil && tp.LowEntropy != nil {
+			mode0, rot0 = int32(tp.LowEntropy.GetMode()), int32(tp.LowEntropy.GetMaskRotation())
+		}
+		args := fmt.Sprintf("%s %s %d %d", c16b01(tp == nil), c16b01(tp == nil || tp.LowEntropy == nil), mode0, rot0)
+		g := c.Gen.Ask("pg-leSend %s %s %s", args, c16b01(k.IsClient), c16b01(k.Used))
+		c.Compared()
+		if got := fmt.Sprintf("ok %d %d %s", gm, gr, c16b01(on)); g != got {
+			c.Disagree("C16/corr/gen-lowEntropySendConfig", fmt.Sprintf("regenerated %q impl %q", g, got), k)
+		}
+		em, er, eon := protocol.VerifExtractLowEntropyConfig(tp)
+		g = c.Gen.Ask("pg-extractLE %s", args)
+		c.Compared()
+		if got := fmt.Sprintf("ok %d %d %s", em, er, c16b01(eon)); g != got {
+			c.Disagree("C16/corr/gen-extractLowEntropyConfig", fmt.Sprintf("regenerated %q impl %q", g, got), k)
+		}
 	}
 	c.Hist("le_send", fmt.Sprintf("client=%v used=%v on=%v", k.IsClient, k.Used, on))
 	if on && !k.IsClient && !k.Used {
@@ -1085,6 +1135,110 @@ func c16Invalid(c *core.Ctx, p *c16Pat) *c16Pat {
 	return p
 }
 
+// c16SeedFor finds the smallest non-negative seed whose hint makes the REAL rng.FixedInt(n, "<seed>:<name>")
+// return want (deterministic: a pure function of the arguments).
+func c16SeedFor(name string, n, want int) *int32 {
+	for s := int32(0); s < 200000; s++ {
+		if rng.FixedInt(n, fmt.Sprintf("%d:%s", s, name)) == want {
+			return c16p32(s)
+		}
+	}
+	return nil
+}
+
+type c16Named struct {
+	name string
+	k    c16Case
+}
+
+// c16Boundaries is the deterministic boundary set, generated on EVERY run before the random stream: every
+// boundary the property's quantifier names and every boundary of the implicit generator's draws.
+func c16Boundaries() []c16Named {
+	var out []c16Named
+	add := func(name string, p *c16Pat) { out = append(out, c16Named{name, c16Case{Kind: "config", Pat: p}}) }
+	seeds := map[string]*int32{"0": c16p32(0), "-1": c16p32(-1), "MaxInt32": c16p32(math.MaxInt32), "MinInt32": c16p32(math.MinInt32), "unset": nil}
+	seedNames := []string{"0", "-1", "MaxInt32", "MinInt32", "unset"}
+	uas := map[string]*bool{"unset": nil, "false": c16pb(false), "true": c16pb(true)}
+	uaNames := []string{"unset", "false", "true"}
+	// minLen = maxLen
+	for _, v := range []int32{0, 6, 12} {
+		add(fmt.Sprintf("nonce minLen=maxLen=%d", v), &c16Pat{Seed: c16p32(0), Nonce: &c16Nonce{MinLen: c16p32(v), MaxLen: c16p32(v)}})
+	}
+	// explicit maxLen below the implicit minLen (6..12; 0..12 with unlockAll), every seed class, every unlockAll
+	for mx := int32(0); mx <= 5; mx++ {
+		for _, sn := range seedNames {
+			for _, un := range uaNames {
+				add(fmt.Sprintf("nonce explicit maxLen=%d<implicit minLen seed=%s unlockAll=%s", mx, sn, un), &c16Pat{Seed: seeds[sn], UnlockAll: uas[un], Nonce: &c16Nonce{MaxLen: c16p32(mx)}})
+			}
+		}
+	}
+	// explicit minLen with implicit maxLen (range 13 - minLen, incl. 13 - 12 = 1 and 13 - 0 = 13)
+	for _, mn := range []int32{0, 1, 11, 12} {
+		add(fmt.Sprintf("nonce explicit minLen=%d implicit maxLen", mn), &c16Pat{Seed: c16p32(-1), Nonce: &c16Nonce{MinLen: c16p32(mn)}})
+	}
+	// fixed prefixes
+	add("nonce FIXED 12-byte prefix", &c16Pat{Nonce: &c16Nonce{Type: c16p32(3), Hex: []string{"000102030405060708090a0b"}}})
+	add("nonce FIXED several prefixes", &c16Pat{Nonce: &c16Nonce{Type: c16p32(3), Hex: []string{"16030100", "16030300", "1603030a", "474554202f20"}}})
+	add("nonce FIXED empty prefix list", &c16Pat{Nonce: &c16Nonce{Type: c16p32(3)}})
+	add("nonce FIXED empty string prefix", &c16Pat{Nonce: &c16Nonce{Type: c16p32(3), Hex: []string{""}}})
+	for ty := int32(0); ty <= 3; ty++ {
+		add(fmt.Sprintf("nonce type=%d explicit", ty), &c16Pat{Seed: c16p32(1), Nonce: &c16Nonce{Type: c16p32(ty)}})
+	}
+	// padding
+	for _, v := range []int32{0, 1, 254, 255} {
+		add(fmt.Sprintf("padding middle=%d", v), &c16Pat{Seed: c16p32(0), Padding: &c16Pad{Mid: c16p32(v)}})
+		add(fmt.Sprintf("padding end=%d", v), &c16Pat{Seed: c16p32(0), UnlockAll: c16pb(true), Padding: &c16Pad{End: c16p32(v)}})
+	}
+	add("padding 0/0", &c16Pat{Padding: &c16Pad{Mid: c16p32(0), End: c16p32(0)}})
+	add("padding 255/255", &c16Pat{Padding: &c16Pad{Mid: c16p32(255), End: c16p32(255)}})
+	// tcp fragment
+	for _, v := range []int32{0, 1, 99, 100} {
+		for _, en := range []bool{false, true} {
+			add(fmt.Sprintf("tcp enable=%v maxSleepMs=%d", en, v), &c16Pat{Tcp: &c16Tcp{Enable: c16pb(en), MaxSleepMs: c16p32(v)}})
+		}
+	}
+	// every mode x every rotation, explicit
+	for mode := int32(0); mode <= 4; mode++ {
+		for _, rot := range c16Rotations {
+			add("low entropy explicit mode x rotation", &c16Pat{Seed: c16p32(0), LE: &c16LE{Mode: c16p32(mode), Rot: c16p32(rot)}})
+		}
+	}
+	// boundaries of every implicit draw, reached through seeds found with the real rng.FixedInt
+	type draw struct {
+		hint string
+		n    int
+		vals []int
+		ua   bool
+	}
+	for _, d := range []draw{
+		{"lowEntropy.maskRotation", 31, []int{0, 1, 15, 16, 29, 30}, false},
+		{"lowEntropy.mode", 5, []int{0, 1, 4}, true},
+		{"nonce.minLen", 7, []int{0, 6}, false},
+		{"nonce.minLen", 13, []int{0, 12}, true},
+		{"nonce.type", 2, []int{0, 1}, false},
+		{"nonce.type", 3, []int{0, 2}, true},
+		{"nonce.applyToAllUDPPacket", 2, []int{0, 1}, false},
+		{"padding.maxMiddlePaddingLen", 256, []int{0, 127, 128, 129, 255}, false},
+		{"padding.maxEndPaddingLen", 256, []int{0, 255}, true},
+		{"tcpFragment.enable", 2, []int{0, 1}, true},
+		{"tcpFragment.maxSleepMs", 100, []int{0, 99}, true},
+	} {
+		for _, v := range d.vals {
+			if s := c16SeedFor(d.hint, d.n, v); s != nil {
+				p := &c16Pat{Seed: s}
+				if d.ua {
+					p.UnlockAll = c16pb(true)
+				}
+				add(fmt.Sprintf("implicit %s draw=%d/%d", d.hint, v, d.n), p)
+				if d.hint == "nonce.minLen" { // the clamp at both ends of the draw
+					add(fmt.Sprintf("implicit %s draw=%d/%d with explicit maxLen=3", d.hint, v, d.n), &c16Pat{Seed: s, UnlockAll: p.UnlockAll, Nonce: &c16Nonce{MaxLen: c16p32(3)}})
+				}
+			}
+		}
+	}
+	return out
+}
+
 func c16Corpus(c *core.Ctx) {
 	files, _ := filepath.Glob(filepath.Join(c.Corpus, "*.json"))
 	sort.Strings(files)
@@ -1117,6 +1271,11 @@ func init() {
 			c.Note("on-the-wire monitors over whole sessions run in the extra stage c16_wire.go")
 			c16Corpus(c)
 			c16Enums(c)
+			// --- deterministic boundaries, on every run, before the random stream
+			for _, b := range c16Boundaries() {
+				c.Hist("boundary", b.name)
+				c16Run(c, b.k)
+			}
 			// --- every subset of explicit fields
 			rounds := c.N(1, 6)
 			for r := 0; r < rounds; r++ {
